@@ -115,6 +115,7 @@ func Load(repo string, cfg Config, needSSA bool) (*Program, error) {
 	}
 	p.allFuncs = ssautil.AllFunctions(prog)
 	p.resolveRenames()
+	p.resolveDevirt()
 	p.byName = map[string]*ssa.Function{}
 	for f := range p.allFuncs {
 		if f.Pkg == nil || !strings.HasPrefix(f.Pkg.Pkg.Path(), modPath) {
